@@ -61,6 +61,11 @@ class Check:
                 step()
             except Exception as e:  # a translator that cannot read the source is a failed obligation
                 self.broken.append(dict(kind="translator", name=getattr(step, "__name__", "gen"), detail=repr(e)))
+                try:
+                    from . import translators as _t
+                    _t.restore_generated(getattr(step, "__name__", ""))
+                except Exception:
+                    pass
         ok, out = C.lake_build(targets=tuple(self.props_modules) + ("driver",))
         thms = []
         for m in self.props_modules:
